@@ -34,7 +34,7 @@ def units(tier, seed):
     for k, eng in enumerate(shapes):
         for mx in (False, True):
             for j in range(1 if (tier == "quick" or len(eng) == 3) else 3):
-                descs.append(dict(engines=list(eng), gens=1 + (k + j) % 3, maximize=mx, obj=objs[(k + j) % 3], Mh=4, seed=s, observing_gsc=bool((k + mx) % 2),
+                descs.append(dict(engines=list(eng), gens=1 + (k + j) % 3, maximize=mx, obj=objs[(k + j) % 3], Mh=4, seed=s, observing_gsc=bool((k + mx) % 2), pmut=(1.0, 0.5)[(k // 2 + j) % 2],
                                   gsc=({"kind": "horizon"}, {"kind": "evals", "n": 90})[(k + j) % 2],
                                   sprout={"kind": ("simple", "nbc")[(k + j + mx) % 2], "L": 2}, hib=bool((k // 2) % 2),
                                   box=("B_asym", "B_dec", "B_3d")[(k + j) % 3]))
